@@ -191,6 +191,42 @@ func newWorld() error {
 	return nil
 }
 
+func genesisHash() []byte {
+	_, _, gaddr := keyOf(1)
+	b, err := coin.NewGenesisBlock(gaddr, 100e12, 1000)
+	if err != nil {
+		panic(err)
+	}
+	h := b.HashHeader()
+	return h[:]
+}
+
+// genesisNode opens a fresh non-publisher node whose configured publisher key and genesis signature are the given ones:
+// visor.Init executes the genesis block as a signed block (Visor.executeSignedBlock -> VerifyPubKeySignedHash).
+func genesisNode(pub, sig []byte, hashHex string) string {
+	if Hex(genesisHash()) != hashHex {
+		return "badhash" // the op was generated for another genesis block
+	}
+	d := os.Getenv("VERIF_SCRATCH")
+	if d == "" {
+		d = os.TempDir()
+	}
+	wcount++
+	dir := filepath.Join(d, fmt.Sprintf("c10-gen-%d-%d", os.Getpid(), wcount))
+	if err := os.MkdirAll(dir, 0o700); err != nil {
+		return "err " + err.Error()
+	}
+	defer os.RemoveAll(dir)
+	cfg := mkConfig(false, cipher.Sig(arr65(sig)))
+	cfg.BlockchainPubkey = cipher.PubKey(arr33(pub))
+	n, err := open(dir, "G", cfg)
+	if err != nil {
+		return "reject init"
+	}
+	n.db.Close()
+	return "accept"
+}
+
 // mkblock: P spends its lexicographically first spendable output to `nout` outputs, builds the next
 // block, signs it (deterministic nonce) and executes it on P. The block bytes are kept as `pending`.
 func mkblock(nout int) string {
@@ -337,6 +373,8 @@ func exec(op string) string {
 		return mkblock(int(PU64(f[1])))
 	case "blockexec":
 		return blockexec(f[1])
+	case "genesis": // genesis <publisher pubkey> <genesis signature> <genesis header hash>: a fresh follower node must accept it
+		return genesisNode(PHex(f[1]), PHex(f[2]), f[3])
 	}
 	panic("harness: unknown op " + f[0])
 }
@@ -375,8 +413,16 @@ func sigTransforms(sig []byte) map[string][]byte {
 	out["recid+4"] = mk(r, s, sig[64]+4)
 	out["recid+8"] = mk(r, s, sig[64]+8)
 	out["recid-ff"] = mk(r, s, 0xff)
-	out["r+n"] = mk(new(big.Int).Add(r, eclib.N), s, sig[64])
-	out["r+n-flip2"] = mk(new(big.Int).Add(r, eclib.N), s, sig[64]^2)
+	// re-encodings of r: r + n names the same scalar mod n (and, when it is below p, the same abscissa as recovery-id bit 1);
+	// with every recovery id. r = n is zero mod n. For an ordinary r the sum exceeds p (and 2^256: it wraps in 32 bytes).
+	rn := new(big.Int).Add(r, eclib.N)
+	for v := byte(0); v < 4; v++ {
+		out["r+n/"+string('0'+v)] = mk(rn, s, v)
+	}
+	out["r=n"] = mk(eclib.N, s, sig[64])
+	out["r=n+1"] = mk(add(eclib.N, 1), s, sig[64]&1)
+	out["r=p-1"] = mk(add(eclib.P, -1), s, sig[64]&1)
+	out["r=p"] = mk(eclib.P, s, sig[64]&1)
 	out["s+n"] = mk(r, new(big.Int).Add(s, eclib.N), sig[64])
 	out["r-n"] = mk(new(big.Int).Sub(r, eclib.N), s, sig[64]^2)
 	out["zero-s"] = mk(r, big.NewInt(0), sig[64])
@@ -544,6 +590,23 @@ func gen(r *Rng, tier string, emit func(string)) {
 					emit("pubverify " + Hex(eclib.Compress(eclib.G)) + " " + Hex(sig) + " " + Hex(b32(z)))
 				}
 			}
+			// re-encoding r -> r + n (a field element below p when r < p - n) must never be accepted, whatever the recovery id:
+			// textbook ECDSA requires 0 < r < n
+			rn := new(big.Int).Add(rr, eclib.N)
+			for v := 2; v < 4; v++ {
+				if keys[v] == nil {
+					continue
+				}
+				addr := cipher.AddressFromPubKey(cipher.PubKey(arr33(keys[v])))
+				for w := 0; w < 4; w++ {
+					if w != v&1 && !thorough && r.Chance(50) {
+						continue
+					}
+					g := eclib.Sig65(rn, ss, w)
+					emit("pubverify " + Hex(keys[v]) + " " + Hex(g) + " " + Hex(b32(z)))
+					emit("addrverify 0 " + Hex(addr.Key[:]) + " " + Hex(g) + " " + Hex(b32(z)))
+				}
+			}
 			// and the low readings against the keys of the high ones
 			v := r.Intn(2)
 			if keys[v+2] != nil {
@@ -702,6 +765,41 @@ func gen(r *Rng, tier string, emit func(string)) {
 			t4 = b.t
 			t4.Type = ty
 			line(ser(t4))
+		}
+	}
+	// ---- 3b. a real node path with a CRAFTED signature: the genesis block. Its hash does not depend on the publisher key, so
+	// the generator picks a tiny r, any s, recovers the key Q of the reading with recovery-id bit 1 set, and configures a fresh
+	// follower with publisher key Q: the canonical signature starts the node; every re-encoding (r + n with any recovery id, the
+	// other readings, negated s ...) must be refused. (Transaction inputs cannot be crafted this way: the signed message
+	// contains the spent output's hash, which contains the address of the very key being recovered.)
+	{
+		z := new(big.Int).SetBytes(genesisHash())
+		zh := Hex(genesisHash())
+		done := 0
+		want := 2
+		if thorough {
+			want = 8
+		}
+		for rv := int64(1); rv < 200 && done < want; rv++ {
+			rr := big.NewInt(rv)
+			ss := new(big.Int).Rsh(randScalar(r), 1)
+			v := 2 + r.Intn(2)
+			q, ok := eclib.Recover(rr, ss, z, v)
+			if !ok || ss.Sign() == 0 {
+				continue
+			}
+			done++
+			pub := eclib.Compress(q)
+			canon := eclib.Sig65(rr, ss, v)
+			rn := new(big.Int).Add(rr, eclib.N)
+			emit("genesis " + Hex(pub) + " " + Hex(canon) + " " + zh)
+			for w := 0; w < 4; w++ {
+				emit("genesis " + Hex(pub) + " " + Hex(eclib.Sig65(rn, ss, w)) + " " + zh)
+			}
+			emit("genesis " + Hex(pub) + " " + Hex(eclib.Sig65(rr, ss, v^2)) + " " + zh)
+			emit("genesis " + Hex(pub) + " " + Hex(eclib.Sig65(rr, ss, v^1)) + " " + zh)
+			emit("genesis " + Hex(pub) + " " + Hex(eclib.Sig65(rr, new(big.Int).Sub(eclib.N, ss), v^1)) + " " + zh)
+			emit("genesis " + Hex(pub) + " " + Hex(eclib.Sig65(rr, ss, v+4)) + " " + zh)
 		}
 	}
 	// ---- 4. signed blocks against a real follower node
